@@ -1,6 +1,7 @@
 SPECIFICATION FairSpec
 CONSTANTS
   NSignals = 2
+  RecheckAfterBusy = TRUE
   BeginBeforeSend = TRUE
 VIEW View
 PROPERTIES Progress
